@@ -1,7 +1,209 @@
 """Property table: DataReader read/take, instance life cycle, next-instance walk, exclusive ownership (C20, C22, C23, C24)."""
+import os
+import re
+
+from ..common import REPO
 from ..props import prop
 
-for _p in ("C20", "C22", "C23", "C24"):
-    prop(_p, level="other", explanation="stub while the harnesses are being built", bounds="", outside="", level_text="",
-         level_note="", technique="Kani/CBMC symbolic execution of the real code, one step from a constructed pre-state",
-         assumptions=[], timeout={"quick": 600, "thorough": 1500}, mem_gb=8)
+_STUBS = (
+    "Three library comparison methods are replaced by loop-free equivalents through kani::stub, because their 16-byte "
+    "memcmp loop forces the global unwinding bound to 17 and every loop over a vector whose length depends on a symbolic "
+    "condition is then unrolled 17 times (measured: no answer in 900 s for a read of one stored sample): "
+    "InstanceHandle ==/cmp/partial_cmp -> 128-bit comparisons, [T; N] ==/!= [U; N] -> element-wise. The harnesses "
+    "c20_stub_equivalence and c24_stub_equivalence prove, with the real methods and unwind 17, that the replacements "
+    "agree with the library on all 2^256 input pairs; they are part of every run of these properties.")
+
+_MEM_NOTE = (
+    "Objects stored in a Vec live in byte-array heap objects of the CBMC memory model; values read back from them are "
+    "never constant-folded, so the lengths of the vectors that create_sample_collection fills under mask tests are "
+    "symbolic even for concrete inputs and its three nested post-processing loops (iterator chains returning element "
+    "pointers merged over the iterations) are unrolled to the global bound, each merged-pointer access costing about "
+    "10^5 SAT variables.")
+
+
+def _wrapper_guard():
+    """The C23 harness mirrors the two-line wrapper composition; pin the wrapper text in /repo."""
+    path = os.path.join(REPO, "dds/src/dcps/dcps_domain_participant/user_defined_data_reader.rs")
+    try:
+        with open(path) as f:
+            src = re.sub(r"\s+", "", f.read())
+    except OSError as e:
+        return False, "cannot read %s: %s" % (path, e)
+    for op in ("read", "take"):
+        want = ("pubfn%s_next_instance(&mutself,max_samples:i32,previous_handle:&Option<InstanceHandle>,"
+                "sample_states:&[SampleStateKind],view_states:&[ViewStateKind],instance_states:&[InstanceStateKind],)"
+                "->DdsResult<SampleList>{if!self.enabled{returnErr(DdsError::NotEnabled);}"
+                "matchself.next_instance(previous_handle){Some(next_handle)=>self.%s(max_samples,sample_states,"
+                "view_states,instance_states,&Some(next_handle),),None=>Err(DdsError::NoData),}}") % (op, op)
+        if want not in src:
+            return False, "UserDefinedDataReader::%s_next_instance no longer has the mirrored two-line form" % op
+    inner = ("pubfnread(&mutself,max_samples:i32,sample_states:&[SampleStateKind],view_states:&[ViewStateKind],"
+             "instance_states:&[InstanceStateKind],specific_instance_handle:&Option<InstanceHandle>,)->DdsResult<SampleList>{"
+             "self.status_condition.remove_communication_state(StatusKind::DataAvailable);self.reader.read(max_samples,"
+             "sample_states,view_states,instance_states,specific_instance_handle,)}")
+    if inner not in src:
+        return False, "UserDefinedDataReader::read is no longer a plain delegation to DataReaderEntity::read"
+    return True, "user_defined_data_reader.rs: read/take_next_instance = next_instance + read/take of that instance"
+
+
+prop(
+    "C20",
+    ready=True,
+    level="other",
+    explanation=(
+        "Kani executes ONE real DataReaderEntity::<()>::read or ::take (thin wrappers around create_sample_collection, where "
+        "all the work happens) from a directly constructed symbolic pre-state: the instance table (view state, instance "
+        "state, both generation counts, handle bytes) and the stored samples (kind, writer, sample state, generation counts, "
+        "timestamp, instance) are symbolic, as are the three masks, max_samples, the optional specific instance handle "
+        "(none / known / unknown). Oracle = a reference filter over the stored samples (in the three masks and of the "
+        "requested instance, first max_samples in storage order) plus the DDS 1.4 definitions of sample_rank, "
+        "generation_rank and absolute_generation_rank (2.2.2.5.1.9-11): the returned list is exactly the selected samples "
+        "with the SampleInfo states at the time of the call, valid_data, handles, counts; read marks exactly those READ and "
+        "keeps everything, take removes exactly those and keeps the others in order; the instances of returned samples "
+        "become NOT_NEW and nothing else of any instance changes; NoData iff nothing matches; BadParameter iff the handle "
+        "is unknown. The two generation ranks are a recorded open finding (KF-C20-1: computed from transitions inside the "
+        "collection instead of the samples' own counts); they are proved correct under the negated trigger. " + _MEM_NOTE +
+        " This is why the quick tier stays at one stored sample with unwinding bound 2."),
+    bounds="quick: 0 stored samples / 2 instances (all masks), and 1 stored sample / 1 instance with unwind 2 (sample- and "
+           "view-state masks any non-empty subset, instance-state mask any singleton); thorough: 1 and 2 stored samples "
+           "over 2 instances with unwind 3 (all three masks any non-empty subset); max_samples 1..=4 or i32::MAX; generation "
+           "counts 0..10^6; handles with 2 symbolic bytes, writer guids with 1 symbolic byte",
+    outside="three or more stored samples and more than two instances (the thorough 2-sample harness already needs about "
+            "10 GB; 2 samples with unwind 4 ran out of 10 GB); max_samples <= 0; 'grouped by instance' beyond the storage order "
+            "the implementation returns (the DDS text allows either); storage orders other than reception order for the rank "
+            "oracle (BY_SOURCE_TIMESTAMP can store an older generation after a newer one); the UserDefinedDataReader wrapper "
+            "(clears DATA_AVAILABLE, then delegates) and reader_methods.rs (deserialisation through DynamicData: not executable "
+            "with this technique)",
+    level_text="Bounded model checking with Kani/CBMC of the real read/take on symbolic reader states of the stated sizes; reported "
+               "as level 'other'.",
+    level_note="trusted: Kani/CBMC, the pre-state constructors and the reference filter in harness/incrate/c20_read_take.rs. "
+               "KF-C20-1 (generation ranks) is open and reported on every run; " + _STUBS,
+    technique="Kani/CBMC symbolic execution of the real read/take, one step from a constructed pre-state",
+    assumptions=[
+        "I1: one InstanceState per handle and every stored sample has its InstanceState (add_reader_change creates it before storing)",
+        "I2: a stored sample's generation counts are <= its instance's current counts and do not decrease along the storage order of an instance (BY_RECEPTION_TIMESTAMP)",
+    ],
+    timeout={"quick": 1500, "thorough": 3000},
+    mem_gb=12,
+)
+
+prop(
+    "C22",
+    ready=True,
+    level="other",
+    explanation=(
+        "Kani executes ONE real DataReaderEntity::<()>::add_reader_change (which applies InstanceState::update_state before "
+        "and after its filters) from a symbolic instance table -- two known instances with arbitrary view state, instance "
+        "state and generation counts, one stored sample, a change of any of the 5 kinds for a known or a never-seen "
+        "instance -- and compares the successor with a 15-line reference model of the DDS instance life cycle (DDS 1.4 "
+        "2.2.2.5.1.3-5, figure 2.11): dispose -> NOT_ALIVE_DISPOSED, data on a not-alive instance -> ALIVE with the matching "
+        "generation count + 1, first sample -> ALIVE/NEW/0/0, view state NEW exactly for a new or reborn instance, everything "
+        "else (other instances, stored samples) untouched, the stored sample carries the instance's counts at reception. "
+        "Where DDS leaves freedom every allowed outcome is accepted (dispose of a NO_WRITERS instance, ALIVE_FILTERED, a "
+        "single writer's unregister of an ALIVE instance). The read/take half (an access makes exactly the accessed "
+        "instances NOT_NEW and never changes instance state or counts) is asserted by the C20 read/take harnesses. "
+        "'Unregistration by ALL writers' needs two chained calls because the reader records no set of live writers: writer "
+        "B writes, writer A unregisters. Two open findings are reported on every run: KF-C22-1 (view state becomes NEW on "
+        "dispose/unregister of a viewed instance and stays NOT_NEW on rebirth of a viewed instance) and KF-C22-2 (the "
+        "first unregister of one of several writers gives NOT_ALIVE_NO_WRITERS); the property is proved for the negated "
+        "triggers (single writer: write then unregister gives NOT_ALIVE_NO_WRITERS)."),
+    bounds="one add_reader_change (two for the unregister obligations) on a reader with 2 known instances and 1 stored sample; "
+           "generation counts 0..10^6; all 5 change kinds; handles with 2 symbolic bytes, writer guids with 1 symbolic byte; "
+           "read/take half: bounds of C20; unwind 4",
+    outside="histories are covered only through the one-step induction over the symbolic instance state (the state of an instance "
+            "is exactly view state, instance state and the two counts); generation counts near i32::MAX (increment overflow needs "
+            "2^31 rebirths); reader QoS other than SHARED ownership / KEEP_ALL / unlimited / BY_RECEPTION_TIMESTAMP / no time filter "
+            "(a change that is Rejected or filtered still passes the first update_state: not asserted either way, DDS does not "
+            "say); EXCLUSIVE ownership is C24; the writer side (autodispose on unregister, data_writer_entity.rs) produces the "
+            "change kinds and is not executed; SampleInfo as delivered by read is C20",
+    level_text="Bounded model checking with Kani/CBMC of the real add_reader_change against a reference life-cycle model, one "
+               "inductive step over a fully symbolic instance state; reported as level 'other'.",
+    level_note="trusted: Kani/CBMC, the constructors and the reference model in harness/incrate/c22_lifecycle.rs. KF-C22-1 and "
+               "KF-C22-2 are open and reported on every run; " + _STUBS,
+    technique="Kani/CBMC symbolic execution of the real add_reader_change, one inductive step (two chained calls for unregister)",
+    assumptions=[
+        "I1: one InstanceState per handle (asserted again after the step)",
+        "reader QoS: SHARED ownership, KEEP_ALL, unlimited resource limits, BY_RECEPTION_TIMESTAMP, minimum_separation 0",
+    ],
+    timeout={"quick": 1500, "thorough": 3000},
+    mem_gb=12,
+)
+
+prop(
+    "C23",
+    ready=True,
+    level="other",
+    guards=[_wrapper_guard],
+    explanation=(
+        "UserDefinedDataReader::read_next_instance / take_next_instance are two-line compositions: next_instance(previous) "
+        "then read / take of exactly that instance, NoData if there is none (pinned by a source guard; the wrapper type owns "
+        "an RtpsStatefulReader and is mirrored on DataReaderEntity<()>). Given C20 (read of a specific instance returns "
+        "exactly its matching samples, NoData iff none) the property holds iff next_instance returns the smallest handle "
+        "greater than the given one THAT HAS SAMPLES MATCHING THE MASKS whenever such an instance exists. Kani executes the "
+        "real DataReaderEntity::next_instance on a symbolic reader (3 instances in any storage order, 2-3 stored samples "
+        "with symbolic instance and sample state, symbolic masks, previous handle none or arbitrary) against that oracle; "
+        "the thorough tier additionally runs the mirrored wrapper end to end (real next_instance + real read) on 2 "
+        "instances / 1 sample. Open finding KF-C23-1, reported on every run: next_instance looks neither at the masks nor "
+        "at the stored samples, so an instance without matching samples (e.g. all taken; InstanceState entries are never "
+        "removed) is selected, the inner read answers NoData and the walk stops although a later instance has matching "
+        "samples. For the negated trigger the property is proved."),
+    bounds="next_instance: 3 instances (handles with 2 symbolic bytes: first and last byte of the 16, i.e. both ends of the "
+           "lexicographic order), 2 stored samples (quick) / 3 (thorough), masks any non-empty subset, previous handle none or "
+           "any 2-symbolic-byte handle, unwind 18; end-to-end wrapper (thorough): 2 instances, 1 stored sample, singleton masks, "
+           "max_samples 1, unwind 3",
+    outside="more than 3 instances; 'repeated calls visit every instance exactly once' is implied by the single-call statement "
+            "(each call returns an instance strictly greater than the previous one) and not executed as a sequence; "
+            "take_next_instance end to end (same composition with take; the take path of create_sample_collection is C20); the "
+            "DATA_AVAILABLE status bit cleared by the wrapper; reader_methods.rs (deserialisation)",
+    level_text="Bounded model checking with Kani/CBMC of the real next_instance (and, thorough, the mirrored wrapper with the real "
+               "read); reported as level 'other'.",
+    level_note="trusted: Kani/CBMC, the oracle in harness/incrate/c23_next_instance.rs, the mirrored wrapper (source guard), C20 for "
+               "the inner read. KF-C23-1 is open and reported on every run; " + _STUBS,
+    technique="Kani/CBMC symbolic execution of the real next_instance; mirrored two-line wrapper; source guard",
+    assumptions=[
+        "I1: one InstanceState per handle and every stored sample has its InstanceState",
+        "the wrapper UserDefinedDataReader::{read,take}_next_instance is mirrored, not executed (source guard on its text)",
+    ],
+    timeout={"quick": 1500, "thorough": 3000},
+    mem_gb=12,
+)
+
+prop(
+    "C24",
+    ready=True,
+    level="other",
+    explanation=(
+        "Kani executes ONE real DataReaderEntity::<()>::add_reader_change on a reader with EXCLUSIVE ownership: one instance "
+        "with symbolic state, two matched writers with ownership strengths over the full i32 range, an ownership record "
+        "naming one of them, and a change of any kind from either writer. Demanded: a change from the owner or a stronger "
+        "writer is accepted and, for data, its writer is the owner afterwards; a weaker writer's change is NotAdded and has "
+        "no effect at all (stored samples, owner, view/instance state, generation counts); for equal strengths either "
+        "outcome is accepted, and on two independent readers the two writers cannot both take the instance from each other "
+        "(no flip-flop; the implementation keeps the first owner); a dispose keeps the owner, an unregister must release "
+        "the instance, an instance without record is taken by any matched writer; never more than one record per instance. "
+        "Three open findings are reported on every run: KF-C24-1 (update_state runs before the ownership test: a weaker "
+        "writer's dispose/unregister/write changes the instance state although NotAdded), KF-C24-2 (the owner's unregister "
+        "does not release the instance: the record removed at line 419 is re-created at the end of the function) and "
+        "KF-C24-3 (an owner that is no longer matched keeps the instance: every change is NotAdded). For the negated "
+        "triggers the step property is proved."),
+    bounds="one add_reader_change; 1 instance (fully symbolic view/instance state, counts 0..10^6), 2 matched writers (guids "
+           "with 1 symbolic byte, strengths full i32), owner either of them, change of any of the 5 kinds from either writer; "
+           "tie obligation: 2 readers x 1 call; unwind 4",
+    outside="ownership release on a missed deadline (DcpsDomainParticipant::check_missed_reader_deadline, a one-line retain on "
+            "instance_ownership inside the participant-level timer path: needs the whole participant aggregate) and the deadline "
+            "timestamp side of KF-C24-1 (a non-owner's change refreshes last_received_time_stamp); more than two writers / one "
+            "instance; sequences of changes beyond the single step (hand-over is split into 'unregister releases' + 'free "
+            "instance is taken'); liveliness loss of the owner; the agreement of several readers on the tie winner (the "
+            "first-owner rule depends on arrival order; only determinism and no flip-flop are demanded)",
+    level_text="Bounded model checking with Kani/CBMC of the real add_reader_change under EXCLUSIVE ownership, one step from a "
+               "symbolic state; reported as level 'other'.",
+    level_note="trusted: Kani/CBMC, the fixture and oracle in harness/incrate/c24_ownership.rs. KF-C24-1, KF-C24-2, KF-C24-3 are "
+               "open and reported on every run; " + _STUBS,
+    technique="Kani/CBMC symbolic execution of the real add_reader_change, one step from a constructed pre-state",
+    assumptions=[
+        "I: at most one ownership record per instance (asserted again after the step); except in c24_owner_unmatched__known the recorded owner is a matched writer",
+        "reader QoS: EXCLUSIVE ownership, KEEP_ALL, unlimited resource limits, BY_RECEPTION_TIMESTAMP, minimum_separation 0",
+    ],
+    timeout={"quick": 1500, "thorough": 3000},
+    mem_gb=12,
+)
